@@ -153,6 +153,19 @@ def run(rep, tier, rng):
             symptom, detail = j
             rep.violation(sig_of(o, meta, symptom), f"{symptom}: #[derive_ex({req['attr']})] {req['item'][:300]}\n{detail[:600]}",
                           {"request": req, "meta": meta, "detail": detail})
+    # the derive entry point must emit impls (or errors) only, never the item
+    dreqs = []
+    for r, m in list(zip(reqs, metas))[:min(len(reqs), 4000)]:
+        if m["kind"] != "impl":
+            dreqs.append({"id": len(dreqs), "entry": "derive", "attr": "", "item": f"#[derive_ex({r['attr']})] {r['item']}"})
+    for o, r in zip(C.expand(dreqs), dreqs):
+        rep.evaluations += 1
+        rep.count("derive_entry_outputs_checked")
+        if o.get("status") != "ok" or not o.get("parses"):
+            rep.violation("C14|derive-entry|expansion-failed", str(r)[:400], {"request": dict(r, expect_item=""), "meta": {"kind": "derive", "derived": [], "erring": False}, "detail": ""})
+        elif any(it["kind"] in ("struct", "enum", "union") for it in o["items"]):
+            rep.violation("C14|derive-entry|item-emitted", f"#[derive(Ex)] output contains a type definition: {r['item'][:300]}",
+                          {"request": dict(r, expect_item=""), "meta": {"kind": "derive", "derived": [], "erring": False}, "detail": "item emitted by derive entry"})
     for k in (0, 1, 2):
         rep.sample({"attr": reqs[k]["attr"], "item": reqs[k]["item"], "expected_item": reqs[k]["expect_item"],
                     "erring": metas[k]["erring"]})
